@@ -7,7 +7,8 @@ Model: `S2S/Model/Registry.lean` — the five registries of `shardManagerImpl` (
 shard ↦ incarnation token, and the life cycle of the `proxyStreamSender` / `proxyStreamReceiver` pair that
 every routed stream creates, one atomic step of one goroutine per `Act`.  Every statement quantifies over
 **every** list of actions: any number of shards, any number of incarnations per shard, every interleaving of
-their steps with each other, with stream failures, with deliveries, watermark broadcasts and replays.
+their steps with each other, with stream failures, with receivers that end on their own (`Act.selfEnd`: the upstream
+`Send` fails, the shared latch ends receiver and sender), with deliveries, watermark broadcasts and replays.
 
 The full statement `C08_full` (below) is FALSE of the current tree.  Each way of breaking it is one interleaving
 window; for each window this file contains a kernel-checked witness (`C08_refuted_…`, replayed on the real code by
@@ -248,5 +249,59 @@ example : (run Cfg.cur State.init ([.open 101 2] ++ up 0 ++ [.wm 0, .open 201 1,
 /-- everything ends, nothing remains -/
 example : let σ := run Cfg.cur State.init (wReconnect ++ [.stop] ++ downS 1 ++ downR 1)
     AllDone σ ∧ EmptyAt σ 201 ∧ Along Cfg.cur AllHyps State.init (wReconnect ++ [.stop] ++ downS 1 ++ downR 1) := by decide
+
+/-! ## the receiver ends ON ITS OWN (`Act.selfEnd`: the upstream `Send` of `sendAck` fails; nothing broken, nobody cancelled) -/
+
+/-- `selfEnd` is what ends the incarnation: before it neither clean-up is enabled (the incoming stream is intact, no
+    successor, the lifetime goes on); it is disabled unless the receiver is `running` (here: receiver 0 still starting
+    up, and receiver 0 after its latch fired); it moves no pc, trips the shared latch, leaves `cancelled`/`broken` unset -/
+example : let σ := run Cfg.cur State.init ([.open 201 1] ++ up 0)
+    step Cfg.cur σ (.sClose 0) = none ∧ step Cfg.cur σ (.rRmAck 0) = none ∧
+    step Cfg.cur σ (.sNotice 0) = none ∧ step Cfg.cur σ (.rNotice 0) = none ∧
+    step Cfg.cur (run Cfg.cur State.init [.open 201 1, .rGet 0, .sSet 0]) (.selfEnd 0) = none ∧
+    step Cfg.cur (run Cfg.cur σ [.selfEnd 0]) (.selfEnd 0) = none ∧
+    (let x := (run Cfg.cur σ [.selfEnd 0]).inc 0
+     x.spc = .running ∧ x.rpc = .running ∧ x.shutdown = true ∧ x.cancelled = false ∧ x.broken = false) ∧
+    (step Cfg.cur (run Cfg.cur σ [.selfEnd 0]) (.sClose 0)).isSome ∧
+    (step Cfg.cur (run Cfg.cur σ [.selfEnd 0]) (.rRmAck 0)).isSome := by decide
+
+/-- start-up, the receiver ends on its own, both clean-ups (the receiver's un-cancelled one: all three removals): every
+    registry of the shard is empty, both workers are `.done`, every hypothesis holds along the run -/
+example : let w := [.open 201 1] ++ up 0 ++ [.selfEnd 0] ++ downS 0 ++ downR 0
+    let σ := run Cfg.cur State.init w
+    (σ.inc 0).spc = .done ∧ (σ.inc 0).rpc = .done ∧ (σ.inc 0).cancelled = false ∧ AllDone σ ∧ EmptyAt σ 201 ∧
+    σ.localShards = [] ∧ σ.sendChans = [] ∧ σ.ackChans = [] ∧ σ.cancels = [] ∧ σ.actives = [] ∧
+    σ.stolen = [] ∧ σ.crashed = false ∧ Along Cfg.cur AllHyps State.init w := by decide
+
+/-- the same with the receiver's clean-up BEFORE the sender's (the two workers of an incarnation are not ordered) -/
+example : let w := [.open 201 1] ++ up 0 ++ [.selfEnd 0] ++ downR 0 ++ downS 0
+    let σ := run Cfg.cur State.init w
+    AllDone σ ∧ EmptyAt σ 201 ∧ σ.stolen = [] ∧ Along Cfg.cur AllHyps State.init w := by decide
+
+/-- a successor opens while the self-ended receiver is in its clean-up, BEFORE its context check (`cleanCheck`): the
+    successor finds and cancels it, evicts its entries and registers; the old receiver then sees its cancelled context
+    and skips its removals.  Every hypothesis holds; incarnation 1 ends up exactly registered, incarnation 0 has ended. -/
+def wSelfEndReconnect : List Act :=
+  [.open 201 1] ++ up 0 ++ [.selfEnd 0, .rRmAck 0, .open 201 1] ++ upTerm 1 ++ [.rCheck 0] ++ downS 0
+
+example : verdict Cfg.cur wSelfEndReconnect =
+      { crashed := false, stoleForeign := false, quiescent := true, exact201 := true, allDone := false, empty201 := false,
+        stamps := true, unreg := true, replay := true, recv := true, opens := true, order := true } ∧
+    (let σ := run Cfg.cur State.init wSelfEndReconnect
+     (σ.inc 0).spc = .done ∧ (σ.inc 0).rpc = .done ∧ (σ.inc 0).cancelled = true ∧
+     aget σ.cancels 201 = some 1 ∧ aget σ.actives 201 = some 1 ∧ liveReceiver σ 201 = some 1) := by decide
+
+/-- the successor opens AFTER the self-ended receiver passed its context check (`cleanCancel`): this is window (iv) again
+    (`C08-cleanup-check-then-remove`), now reached without any stream failure — the old receiver's unconditional removals
+    delete the successor's cancel function and active-receiver entry.  Exactly `RecvOK` is violated (at `rGet 1`), as the
+    theorems require. -/
+def wSelfEndCleanup : List Act :=
+  [.open 201 1] ++ up 0 ++ [.selfEnd 0] ++ downS 0 ++ [.rRmAck 0, .rCheck 0, .open 201 1] ++ upTerm 1 ++
+  [.rRmOwnCancel 0, .rUnregActive 0]
+
+example : verdict Cfg.cur wSelfEndCleanup =
+      { crashed := false, stoleForeign := true, quiescent := true, exact201 := false, allDone := false, empty201 := false,
+        stamps := true, unreg := true, replay := true, recv := false, opens := true, order := true } ∧
+    (run Cfg.cur State.init wSelfEndCleanup).stolen = [(0, .cancels, 1), (0, .actives, 1)] := by decide
 
 end S2S.Registry
